@@ -39,6 +39,7 @@ type Cfg struct {
 	Report   map[string]bool // property ids whose violations are reported; nil = all
 	Skip     map[string]bool // violation fingerprints recorded as known findings (counted, not reported)
 	Heights  int             // 1 = single height (nodes stop after their commit)
+	CommitFails bool         // every consumer's commit callback fails (the node stays in the height it decided)
 	Sloppy   bool            // consumer validators accept a missing block
 	C11      bool            // one-step extension: deliver every honest output at once to every peer in a matching state
 }
@@ -184,6 +185,7 @@ func NewEngine(cfg Cfg) *Engine {
 	e.W = NewWorld(cfg.C, cfg.Desc, cfg.Invalid)
 	e.W.SloppyValidator = cfg.Sloppy
 	e.W.MaxCommits = max(cfg.Heights, 1)
+	e.W.CommitFails = cfg.CommitFails
 	byz := map[int]bool{}
 	for _, b := range cfg.Byz {
 		byz[b] = true
